@@ -86,7 +86,9 @@ def run_seeded(names=None, runs=None):
         if meta.get("superseded_by_fix"):
             print("seeded %-12s SKIPPED (harmless since repository fix %s, kept as documentation)" % (name, meta["superseded_by_fix"]))
             continue
-        prop = meta.get("property") or name.split("_")[-1]
+        # the check of the property the change was written against, unless the stored notes say that
+        # it is the check of another property that reports it (meta "caught_by_check")
+        prop = meta.get("caught_by_check") or meta.get("property") or name.split("_")[-1]
         tmp = tempfile.mkdtemp(prefix="verif-seeded-")
         try:
             shutil.copytree(os.environ.get("VERIF_BASE_SRC") or "/repo/src", os.path.join(tmp, "src"))
